@@ -1638,7 +1638,9 @@ class Parallel(Logger):
                 # Display depending on the number of remaining items
                 # A message as soon as we finish dispatching, cursor is 0
                 cursor = total_tasks - index + 1 - self._pre_dispatch_amount
-                frequency = (total_tasks // self.verbose) + 1
+                # (at least 1: a negative verbosity level must not make the
+                # modulo below divide by zero inside a completion callback)
+                frequency = max((total_tasks // self.verbose) + 1, 1)
                 is_last_item = index + 1 == total_tasks
                 if is_last_item or cursor % frequency:
                     return
